@@ -51,6 +51,8 @@ def run(ctx):
     _overrides(ctx, r7, repo)
     r8 = ctx.rule("C12.R8", "SUMMARY (interpreted): _ChannelSummaryMixin.__init__ on three channels listed out of order (3, 1 and 2 bins) with repeated sample and modifier names: channels, samples and (name, type) pairs come out sorted and unique; channel_nbins and channel_slices are keyed in sorted channel order and the slices tile [0, 6) in THAT order", "SUMMARY", floor=1)
     _summary_interpreted(ctx, r8, repo)
+    r9 = ctx.rule("C12.R9", "REBUILD (interpreted): for each of the seven modifier types: the requirement its module declares -> the merged settings -> the parameter-set object (real classes) -> what Workspace.build writes for it -> merged again with that as the measurement's configuration: the second merge is accepted (build emits no setting the modifier does not use) and gives back the same inits, bounds, fixed flag and constraint settings; observations are cut with the configuration's channel slices in channel order", "REBUILD", floor=7)
+    _rebuild_interpreted(ctx, r9, repo)
 
     # ------------------------------------------------------------ R1
     sites = [(PDF, "_ModelConfig._create_and_register_paramsets"), (MIX, "_ChannelSummaryMixin.__init__"), (TC, "_tensorviewer_from_sizes")]
@@ -324,7 +326,28 @@ def _no_mutation(ctx, rid, m):
             v = n.value
             if isinstance(v, (ast.Dict, ast.List, ast.ListComp, ast.DictComp)) or (isinstance(v, ast.Call) and (A.call_name(v) or "").split(".")[-1] in ("deepcopy", "dict", "list", "reduce", "apply")):
                 fresh.add(n.targets[0].id)
+    # containers made here whose ELEMENTS are still the caller's objects (a dict literal of self[...] values):
+    # fresh at the top level only
+    shallow = set()
+    for n in ast.walk(m.node):
+        if isinstance(n, ast.Assign) and len(n.targets) == 1 and isinstance(n.targets[0], ast.Name) and isinstance(n.value, (ast.Dict, ast.List, ast.ListComp, ast.DictComp, ast.Tuple)):
+            inner = set()
+            for x in ast.walk(n.value):
+                if isinstance(x, ast.Call) and (A.call_name(x) or "").split(".")[-1] == "deepcopy":
+                    continue
+                if isinstance(x, ast.Name):
+                    inner.add(x.id)
+            if any(r in owned_roots for r in inner) or any(r in owned_roots for r in d.roots_of(n.value)):
+                shallow.add(n.targets[0].id)
     bad = []
+    for n in ast.walk(m.node):
+        # deep in-place operations (jsonpatch.apply(doc, in_place=True) and the like) write into everything reachable
+        if isinstance(n, ast.Call) and any(k.arg in ("in_place", "inplace") and A.const_value(k.value) is True for k in n.keywords) and n.args:
+            tgt = n.args[0]
+            head0 = (A.dotted(tgt) or A.unparse(tgt)).split(".")[0].split("[")[0]
+            if head0 in owned_roots or head0 in shallow or (head0 not in fresh and any(r in owned_roots for r in d.roots_of(tgt))):
+                bad.append(n)
+                continue
     for n in ast.walk(m.node):
         recv = None
         what = None
@@ -441,3 +464,94 @@ def _summary_interpreted(ctx, rid, repo):
             ctx.holds(rid, f"{MIX}::_ChannelSummaryMixin.__init__ [interpreted]", str(want["channel_slices"]))
     except (Undecided, KeyError, TypeError, ValueError, IndexError, AttributeError) as e:
         ctx.unrecognised(rid, mc, "_ChannelSummaryMixin.__init__", f"not interpretable: {type(e).__name__}: {e}")
+
+
+def _rebuild_interpreted(ctx, rid, repo):
+    from ..alg import AutoRegion, NotHandled, PyFunc, RaisedInFragment, same_value
+    from ..objmodel import Instance, World
+    from .c01 import registry
+    at, c = Poly.atom, Poly.const
+    PS = "src/pyhf/parameters/paramsets.py"
+    PU_ = "src/pyhf/parameters/utils.py"
+    red = repo.func(PU_, "reduce_paramsets_requirements")
+    wsc = repo.cls(WS, "Workspace")
+    build = wsc.methods["build"]
+    reg = registry(repo)
+    errs = (Undecided, KeyError, TypeError, ValueError, IndexError, AttributeError)
+
+    def show(v):
+        if isinstance(v, (list, tuple)):
+            return [show(x) for x in v]
+        if isinstance(v, dict):
+            return {k: show(x) for k, x in v.items()}
+        if v is None or isinstance(v, (bool, str)):
+            return v
+        return str(to_poly(v))
+
+    for typ, (b, _c) in sorted(reg.items()):
+        rp = b.module.funcs.get("required_parset")
+        if rp is None:
+            ctx.unrecognised(rid, b, typ, "module has no required_parset")
+            continue
+        ctx.touch(rp)
+        site = f"{rp.relpath}::required_parset -> Workspace.build -> merge [{typ}]"
+        try:
+            params = A.params_of(rp.node)
+            args = [[False, False] if pn == "fixed" else [at(f"{typ}_{pn}0"), at(f"{typ}_{pn}1")] for pn in params]
+            region = AutoRegion()
+            req = Interp(dict(zip(params, args)), {}, region).run(A.strip_docstring(rp.node.body))
+            if not isinstance(req, dict):
+                raise Undecided("required_parset does not return a dict")
+            needs = {k: v for k, v in req.items() if v is None}
+            n = int(to_poly(req["n_parameters"]).const_value())
+            user0 = {"p": {k: ([[at(f"U_{k}_lo"), at(f"U_{k}_hi")]] * n if k == "bounds" else [at(f"U_{k}{j}") for j in range(n)]) for k in needs}}
+
+            def merge(user):
+                return Interp({"paramsets_requirements": {"p": [dict(req)]}, "paramsets_user_configs": user, "exceptions": Obj("exceptions")}, {}, region).run(A.strip_docstring(red.node.body))["p"]
+
+            m1 = merge(user0)
+            w = World({"__strict__": True, "cls": lambda a_, k_: a_[0]}, region=region, module_env={"schema": Obj("schema", {"version": "1.0.0"}), "copy": None, "pyhf": Obj("pyhf")})
+            w.module_env.pop("copy")
+            for cn, cls_ in repo.module(PS).classes.items():
+                w.add_class(cls_)
+            w.add_class(wsc)
+            pcls = repo.module(PS).classes.get(m1["paramset_type"])
+            if pcls is None:
+                raise Undecided(f"unknown paramset type {m1['paramset_type']}")
+            pobj = w.new(pcls, [], {k: v for k, v in m1.items() if k != "paramset_type"})
+            cfg = Obj("config", {"poi_name": "p", "par_map": {"p": {"paramset": pobj, "slice": Obj("slice", {"start": c(0), "stop": c(n), "step": None})}}, "channels": ["ca", "cb"],
+                                 "channel_slices": {"cb": Obj("slice", {"start": c(1), "stop": c(3), "step": None}), "ca": Obj("slice", {"start": c(0), "stop": c(1), "step": None})}})
+            model = Obj("model", {"config": cfg, "spec": {"channels": [{"name": "cb", "samples": []}, {"name": "ca", "samples": []}]}})
+            out = w.call_func(build, [Obj("cls"), model, [at("d0"), at("d1"), at("d2")]], {"name": "meas"})
+            pcfg = [p_ for p_ in out["measurements"][0]["config"]["parameters"] if p_.get("name") == "p"]
+            if len(pcfg) != 1:
+                raise Undecided("build does not write exactly one entry for the parameter")
+            obs = {o_["name"]: show(o_["data"]) for o_ in out["observations"]}
+            if obs != {"ca": ["d0"], "cb": ["d1", "d2"]} or [o_["name"] for o_ in out["observations"]] != ["ca", "cb"]:
+                ctx.violated(rid, build, f"observations written by build [{typ}]", "the data vector is not cut into the channels with the configuration's own slices, in the configuration's channel order", expected="{'ca': ['d0'], 'cb': ['d1', 'd2']}", found=str(obs))
+                continue
+            user1 = {"p": {k: v for k, v in pcfg[0].items() if k != "name"}}
+            m2 = merge(user1)
+            diff = []
+            for k in ("inits", "bounds", "auxdata", "sigmas", "factors"):
+                a_, b_ = m1.get(k), m2.get(k)
+                if isinstance(a_, set) or isinstance(b_, set) or a_ is None or b_ is None:
+                    if (a_ is None or isinstance(a_, set)) != (b_ is None or isinstance(b_, set)):
+                        diff.append(k)
+                    continue
+                fa, fb = [x for row in a_ for x in (row if isinstance(row, (list, tuple)) else [row])], [x for row in b_ for x in (row if isinstance(row, (list, tuple)) else [row])]
+                if len(fa) != len(fb) or not all(same_value(x, y) is True for x, y in zip(fa, fb)):
+                    diff.append(k)
+            f1 = m1.get("fixed")
+            f2 = m2.get("fixed")
+            norm = lambda f_: [f_] * n if isinstance(f_, bool) else list(f_)
+            if norm(f1) != norm(f2):
+                diff.append("fixed")
+            if diff:
+                ctx.violated(rid, build, f"rebuild [{typ}]", f"the settings Workspace.build writes for a {typ} parameter do not reproduce the parameter when the workspace is turned into a model again: {diff[0]} differs", expected=str(show(m1.get(diff[0]))), found=str(show(m2.get(diff[0]))))
+            else:
+                ctx.holds(rid, site, f"build writes {sorted(user1['p'])}; merged again: same inits / bounds / fixed / constraint settings")
+        except RaisedInFragment as e:
+            ctx.violated(rid, build, f"rebuild [{typ}]", f"the measurement Workspace.build writes for a {typ} parameter is refused when the workspace is turned into a model again ({e.exc_name}): build emits a setting this modifier type does not use, or omits one it requires")
+        except errs as e:
+            ctx.unrecognised(rid, build, f"rebuild [{typ}]", f"not interpretable: {type(e).__name__}: {e}")
